@@ -55,6 +55,12 @@ pub fn converse_fragmented(cfg: &ConnCfg, params: &ServerParams, cert: Cert, wit
                 activation_error = Some(format!("not active after {} reads (state {}, activations {})", reads, c.verif_global().verif_state_id(), t.peer.borrow().srv.activations_done));
                 break;
             }
+            // the user does not wait for the session to be active: before every read of the activation a pointer move goes
+            // through try_write (dropped) and a key press through write (refused) — nothing of them may ever be sent
+            if with_inputs && c.verif_global().verif_state_id() != 5 {
+                let _ = c.try_write(RdpEvent::Pointer(PointerEvent { x: 0x0101 + reads as u16, y: 0x0202, button: PointerButton::None, down: false }));
+                let _ = c.write(RdpEvent::Key(KeyboardEvent { code: 0x0030 + reads as u16, down: true }));
+            }
             if let Err(e) = c.read(|_| {}) {
                 activation_error = Some(format!("read #{}: {:?}", reads, e));
                 break;
